@@ -327,6 +327,12 @@ def make_case(rng, nmin, nmax):
         # round parameter values: band widths that coincide with the spacing of y values on a decimal grid
         grid = [0.05, 0.1, 0.2, 0.25, 0.5]
         dx, dy, dz = (float(grid[int(rng.integers(0, 5))]) if rng.random() < 0.7 else v for v in (dx, dy, dz))
+    if rng.random() < 0.06:
+        # the top of the documented (0, 1] domain: a band as wide as the whole axis / the whole y range
+        if rng.random() < 0.5:
+            dx = 1.0
+        else:
+            dy = 1.0
     x_max = None
     if rng.random() < 0.3:
         hi = int(4 * x[-1]) + 2
